@@ -49,6 +49,9 @@ EXPLANATION = (
     'R7: the version_compare method answers with the verdict of version_compare_many (range membership returned as the verdict is a violation). '
     'Round 9: also normalised - an index loop whose bound was hoisted into a local, `for T in map(f, xs)`, a callable picked first (`(f if c else g)(x)`), '
     'a NamedTuple result read by field name (the (operator, version) pair), min()/max() as pure values; intersect may return the unchanged copy directly. '
+    'Round 10: also normalised - a lookup with a computed key in a small constant table (chain of `K == k`), `s[:n] == lit` as startswith, `x = A if c else B` / '
+    '`for t in (A if c else B)` / `(A if c else B).m(..)` as if/else, partial(f, a)(x) as f(a, x) (also through a local), repeated strip(); the comparison core may answer '
+    'three-way (negative/zero/positive) with the dunders comparing the answer with 0. '
     'NOT decided: (a) if-clause narrowing is applied whatever the condition does with the result of version_compare (`not ..`, `.. or true`): the narrowed range is then '
     'not the set of versions that run the block - in scope of the property, but evaluate_if cannot see it and a rule would have to prescribe a design; '
     '(b) int() of a digit run longer than the interpreter limit raises ValueError (not an order property). '
@@ -382,7 +385,7 @@ def _all_hold(e: ast.AST, lhs: str) -> T.Optional[bool]:
 
 MATERIALISE = {'list', 'tuple', 'sorted', 'set', 'frozenset'}
 DRAIN = MATERIALISE | {'any', 'all', 'sum', 'min', 'max', 'map', 'filter', 'zip', 'enumerate', 'iter', 'next', 'join', 'reversed', 'dict'}
-HARMLESS = {'isinstance', 'len', 'bool', 'str', 'repr', 'type', 'id', 'hasattr'}
+HARMLESS = {'isinstance', 'len', 'bool', 'str', 'repr', 'type', 'id', 'hasattr', 'append', 'add', 'insert'}      # (storing the object is not walking it)
 
 
 def _r3_single_pass(ctx: RuleCtx, mod: T.Any, vm: T.Any, vmn: T.Any) -> None:
@@ -416,9 +419,16 @@ def _r3_single_pass(ctx: RuleCtx, mod: T.Any, vm: T.Any, vmn: T.Any) -> None:
                 if nm in DRAIN:
                     drains.append(par)
                 elif nm not in HARMLESS:
-                    unknown.append(par)
+                    # handed to a function of the module whose parameter is declared `str`: one requirement, not walked as a list
+                    callee = mod.func(nm) if isinstance(par.func, ast.Name) and mod.has_func(nm) else None
+                    idx = par.args.index(n)
+                    cps = (callee.args.posonlyargs + callee.args.args) if callee is not None else []
+                    if not (idx < len(cps) and cps[idx].annotation is not None and norm(cps[idx].annotation).strip('\'"') == 'str'):
+                        unknown.append(par)
             elif isinstance(par, (ast.List, ast.Tuple)) or (isinstance(par, ast.Compare) and all(isinstance(o, (ast.Is, ast.IsNot)) for o in par.ops)):
                 pass              # wrapped into a display / identity test: not walked
+            elif isinstance(par, ast.Assign) and par.value is n and all(isinstance(t, ast.Name) for t in par.targets):
+                pass              # bound to another name as it is (e.g. the single requirement of an unrolled one-element list)
             elif par is None or (isinstance(par, ast.UnaryOp) and isinstance(par.op, ast.Not)) or isinstance(par, ast.BoolOp):
                 pass              # truth test: does not walk it (a generator is always true, a list is true when non-empty)
             elif isinstance(par, ast.Starred):
